@@ -103,23 +103,27 @@ Proof.
   - cbn [number_from nth_error]. rewrite (IH (N.succ i) p k s H). f_equal. f_equal. lia.
 Qed.
 
-Lemma status_values_shape : forall p l,
-  exists z, status_values p l = (z, 0) :: number_from 1 p (declared_after_zero l)
+Lemma status_values_shape : forall p l n0,
+  exists z, status_values_n p l n0 = (z, 0) :: number_from 1 p (declared_after_zero_n l n0)
             /\ has_suffix (bs "UNSPECIFIED") z = true /\ has_prefix p z = true.
 Proof.
-  intros p [|s r]; cbn [status_values declared_after_zero].
+  intros p [|s r] n0; cbn [status_values_n declared_after_zero_n].
   - eexists. split; [reflexivity|]. split; [apply has_suffix_self|apply has_prefix_app].
-  - destruct (has_suffix (bs "UNSPECIFIED") s) eqn:E.
-    + eexists. split; [reflexivity|]. split; [|apply svn_prefix].
-      unfold status_value_name. destruct (has_prefix p s); [exact E|now apply has_suffix_app].
+  - destruct (has_suffix (bs "UNSPECIFIED") s) eqn:E; cbn [andb].
+    + destruct (n0 =? 0).
+      * eexists. split; [reflexivity|]. split; [|apply svn_prefix].
+        unfold status_value_name. destruct (has_prefix p s); [exact E|now apply has_suffix_app].
+      * eexists. split; [reflexivity|]. split; [apply has_suffix_self|apply has_prefix_app].
     + eexists. split; [reflexivity|]. split; [apply has_suffix_self|apply has_prefix_app].
 Qed.
 
 Theorem spec_status_holds : forall e fl, spec_status e (expand_with e fl).
 Proof.
-  intros e fl. exists (status_values (status_prefix e) (e_status e)). split.
+  intros e fl. exists (entity_status_values e). split.
   - unfold has_enum. apply in_expand_head. unfold status_enum. rewrite cn_status. cbn. auto.
-  - destruct (status_values_shape (status_prefix e) (e_status e)) as [z [-> [Hs Hp]]].
+  - unfold entity_status_values.
+    destruct (status_values_shape (status_prefix e) (e_status e) (first_status_number e)) as [z [-> [Hs Hp]]].
+    change (sp_first_number e) with (first_status_number e).
     split; [exists z; auto|]. split.
     + cbn [length]. now rewrite number_from_length.
     + intros k s Hk. exists (status_value_name (status_prefix e) s). cbn [nth_error].
